@@ -1,6 +1,7 @@
 import Driver.Proto
 import Model.Errs
 import Model.ErrsFmt
+import Model.ErrsTrace
 open Proto Errs
 
 /-- driver state: the heap, the table of named error values, the counter that stands for pointer identity of
@@ -142,9 +143,93 @@ def exec (s : St) (k : Nat) (op : String) (args : List String) : St × String :=
     | _, _ => (s, "bad-op")
   | _, _ => (s, "bad-op")
 
+/-! ### area `trace`: the whole text of `Detail(trim)` over real frames (stateless lines)
+
+`trace <trim> P<prefix,…> <extra> <level>…` — every level is `ctor:probe:depth:msg:lib:site`: one constructor call whose
+argument is the value built by the level before it; `site` are the frames `runtime.Callers` saw on the source line of the
+call (innermost first), `lib` the library's own frames above it; the harness ignores both lists and repeats the calls. -/
+
+structure TSt where
+  h : Heap := #[]
+  F : FrameTab := #[]
+  cur : Val := .nilIface
+  uid : Nat := 0
+
+def parseFrame (w : String) : Option Frame :=
+  match w.splitOn "," with
+  | [a, b, c] =>
+    match strOfHex? a, strOfHex? b, c.toNat? with
+    | some fn, some file, some ln => some { fn := fn, file := file, line := ln }
+    | _, _, _ => none
+  | _ => none
+
+def parseFrames (w : String) : Option (List Frame) :=
+  if w == "_" then some [] else (w.splitOn ";").mapM parseFrame
+
+def parsePrefixes (w : String) : Option (List String) :=
+  if !w.startsWith "P" then none
+  else if w == "P" then some []
+  else ((w.drop 1).toString.splitOn ",").mapM strOfHex?
+
+/-- after an operation on the heap: the first new cell carries the stack captured by the call, further new cells none -/
+def TSt.adopt (t : TSt) (r : Heap × Val) (fs : List Frame) : TSt :=
+  let extra := r.1.size - t.h.size
+  { t with h := r.1, cur := r.2,
+           F := if extra = 0 then t.F else t.F ++ (fs :: List.replicate (extra - 1) []).toArray }
+
+def traceLevel (t : TSt) (w : String) : Option TSt :=
+  match w.splitOn ":" with
+  | [ctor, _, _, m, lib, site] =>
+    match strOfHex? m, parseFrames lib, parseFrames site with
+    | some m, some lib, some site =>
+      let fs := recordStack lib site
+      match ctor with
+      | "new" | "newf" => some (t.adopt (new t.h m) fs)
+      | "cause" | "causef" => some (t.adopt (newWithCause t.h m t.cur) fs)
+      | "wrap" => some (t.adopt (wrap t.h t.cur) fs)
+      | "wraptyped" => some (t.adopt (wrapTyped t.h t.cur) fs)
+      | "plain" => some { t with cur := .plain t.uid m, uid := t.uid + 1 }
+      | "fwrap" => some { t with cur := .fwrap t.uid m t.cur, uid := t.uid + 1 }
+      | "nil" => some { t with cur := .nilIface }
+      | "tnil" => some { t with cur := .typedNil }
+      | "fnil" => some { t with cur := .foreignNil }
+      | "appendacc" =>   -- Append(cur): a foreign accumulator is wrapped, with a stack captured inside Append
+        let r := append t.h t.cur []
+        some (t.adopt (r.1, ptrVal r.2.1) fs)
+      | "appendarg" =>   -- Append(nil, cur): an *Error argument is copied cell by cell (the copies keep their stacks)
+        match t.cur with
+        | .ref id =>
+          let r := append t.h .nilIface [t.cur]
+          let src := if isEmpty t.h id then [] else (chain t.h (fuelOf t.h) id).map (framesOf t.F)
+          some { t with h := r.1, cur := ptrVal r.2.1, F := t.F ++ src.toArray }
+        | _ =>
+          let r := append t.h .nilIface [t.cur]
+          some (t.adopt (r.1, ptrVal r.2.1) fs)
+      | _ => none
+    | _, _, _ => none
+  | _ => none
+
+def traceLine (trim pfx extra : String) (levels : List String) : String :=
+  match parsePrefixes pfx, extra.toNat?, levels.foldlM traceLevel ({} : TSt) with
+  | some P, some n, some t =>
+    match t.cur with
+    | .ref id =>
+      -- `extra` further plain errors appended to the result: the message becomes the list, the trace stays the first error's
+      let t := if n = 0 || isEmpty t.h id then t else
+        let r := append t.h t.cur ((List.range n).map (fun i => Val.plain (1000 + i) ("extra" ++ toString i)))
+        t.adopt (r.1, ptrVal r.2.1) []
+      (match t.cur with
+       | .ref id => "D:" ++ hexOfStr (detailR (trim == "1") P t.F t.h id)
+       | _ => "nonref")
+    | .nilIface => "nil"
+    | .typedNil => "tn"
+    | _ => "nonref"
+  | _, _, _ => "bad-op"
+
 def step (s : St) (line : String) : St × String :=
   match words line with
   | ["reset"] => ({}, "reset")
+  | "trace" :: trim :: pfx :: extra :: levels => (s, traceLine trim pfx extra levels)
   | v :: "=" :: op :: args =>
     match varIx? v with
     | some k => exec s k op args
